@@ -113,20 +113,20 @@ def _explore_chunk(args):
                                 except Exception as ex:     # noqa
                                     cex["script_error"] = repr(ex)
                             elif res.replayer is not None:
-                                from .engine import Decoder
+                                from .engine import two_pass
                                 try:
-                                    cex["script"] = res.replayer(Decoder(m1))
+                                    cex["script"] = two_pass(m1, res.replayer)
                                 except Exception as ex:     # noqa
                                     cex["script_error"] = repr(ex)
                             rec["failed"].append(cex)
                             done.add(n)
             # witness for sampling / replay validation of passing paths
             if res.world is None and res.replayer is not None and not rec["failed"] and _want_witness(e.trace):
-                from .engine import Decoder
+                from .engine import two_pass
                 try:
                     wm0 = e.real_model()
                     if wm0 is not None:
-                        rec["witness"] = res.replayer(Decoder(wm0))
+                        rec["witness"] = two_pass(wm0, res.replayer)
                 except Exception as ex:   # noqa
                     rec["witness_error"] = repr(ex)
             if res.world is not None and not rec["failed"] and _want_witness(e.trace):
